@@ -1,7 +1,411 @@
-//! C31 — not built yet.
-use vcore::Ctx;
+//! C31 — persisted queries execute only the document registered under the hash.
+//!
+//! Histories of requests against `ApolloPersistedQueries` are run next to a reference model (the set of pool
+//! texts that were registered with their own SHA-256). Every pool text echoes constants / aliases that no other
+//! text produces, so the response (and the log written by the resolvers) identifies the executed document.
+use async_graphql::extensions::apollo_persisted_queries::{ApolloPersistedQueries, CacheStorage, LruCacheStorage};
+use async_graphql::parser::types::ExecutableDocument;
+use async_graphql::{Context, EmptyMutation, EmptySubscription, Object, Request, Response, Schema, Value as GValue, Variables};
+use serde_json::{json, Value as J};
+use sha2::{Digest, Sha256};
+use std::collections::BTreeSet;
+use std::sync::{Arc, Mutex};
+use vcore::{Case, Ctx, Src};
 
-pub fn run(_ctx: &mut Ctx) {
-    eprintln!("C31: check not built yet");
-    std::process::exit(2);
+type ExecLog = Arc<Mutex<Vec<i32>>>;
+
+struct Query;
+
+#[Object]
+impl Query {
+    async fn echo(&self, ctx: &Context<'_>, v: i32) -> i32 {
+        ctx.data_unchecked::<ExecLog>().lock().unwrap().push(v);
+        v
+    }
+    async fn tag(&self, ctx: &Context<'_>, s: String) -> String {
+        ctx.data_unchecked::<ExecLog>().lock().unwrap().push(-(s.chars().count() as i32));
+        s
+    }
+}
+
+/// Deterministic exact LRU over the public `CacheStorage` trait (the shipped `LruCacheStorage` rounds its
+/// capacity up to 64 slots, so it never evicts with this pool; this one does).
+#[derive(Clone)]
+struct StrictLru {
+    cap: usize,
+    items: Arc<Mutex<Vec<(String, ExecutableDocument)>>>,
+}
+
+#[async_trait::async_trait]
+impl CacheStorage for StrictLru {
+    async fn get(&self, key: String) -> Option<ExecutableDocument> {
+        let mut it = self.items.lock().unwrap();
+        let pos = it.iter().position(|(k, _)| *k == key)?;
+        let e = it.remove(pos);
+        let doc = e.1.clone();
+        it.push(e);
+        Some(doc)
+    }
+    async fn set(&self, key: String, query: ExecutableDocument) {
+        let mut it = self.items.lock().unwrap();
+        it.retain(|(k, _)| *k != key);
+        it.push((key, query));
+        while it.len() > self.cap {
+            it.remove(0);
+        }
+    }
+}
+
+/// What executing a pool text must produce (for variable value `x` and the chosen operation of entry 5).
+enum Expect {
+    Data(J, Vec<i32>),
+    /// the document parses but does not validate: an error naming this marker, no resolver runs
+    Invalid(&'static str),
+    /// the text has no parse at all
+    Unparsable,
+}
+
+const POOL: [&str; 11] = [
+    "{ echo(v: 100) }",
+    "{ k1: echo(v: 101) }",
+    "query Op2 { echo(v: 102) second: echo(v: 2) }",
+    "query V3($x: Int!) { k3: echo(v: $x) }",
+    "{ ...F4 } fragment F4 on Query { k4: echo(v: 104) }",
+    "query A5 { a5: echo(v: 105) } query B5 { b5: echo(v: 1105) }",
+    "{ echo(v:100) }",
+    "{ missing7 }",
+    "{ k8: echo(v: 108) ",
+    "query { echo(v: } }",
+    "{ k10: tag(s: \"\u{e9}\u{1f600}\") }",
+];
+
+fn expect(i: usize, x: i32, op_b: bool) -> Expect {
+    match i {
+        0 | 6 => Expect::Data(json!({"echo": 100}), vec![100]),
+        1 => Expect::Data(json!({"k1": 101}), vec![101]),
+        2 => Expect::Data(json!({"echo": 102, "second": 2}), vec![2, 102]),
+        3 => Expect::Data(json!({"k3": x}), vec![x]),
+        4 => Expect::Data(json!({"k4": 104}), vec![104]),
+        5 => {
+            if op_b {
+                Expect::Data(json!({"b5": 1105}), vec![1105])
+            } else {
+                Expect::Data(json!({"a5": 105}), vec![105])
+            }
+        }
+        7 => Expect::Invalid("missing7"),
+        10 => Expect::Data(json!({"k10": "\u{e9}\u{1f600}"}), vec![-2]),
+        _ => Expect::Unparsable,
+    }
+}
+
+fn sha_hex(text: &str) -> String {
+    Sha256::digest(text.as_bytes()).iter().map(|b| format!("{:02x}", b)).collect()
+}
+
+#[derive(Clone, Debug)]
+enum Step {
+    /// query text + its own hash, version 1
+    Register(usize),
+    /// empty query + the hash of pool text i
+    Lookup(usize),
+    /// empty query + a hash that belongs to no pool text
+    LookupUnknown(usize),
+    /// query text i + a hash that is not sha256(text i)
+    WrongHash(usize, usize),
+    /// right hash, version != 1, with or without the query text
+    WrongVersion(usize, i32, bool),
+    /// `persistedQuery` is not an object carrying a hash
+    Malformed(usize, usize, bool),
+    /// no `persistedQuery` extension at all
+    Plain(usize),
+}
+
+const VERSIONS: [i32; 5] = [2, 0, -1, i32::MAX, 100];
+const N_WRONG: usize = 7;
+const N_MALFORMED: usize = 9;
+const N_UNKNOWN: usize = 5;
+
+fn wrong_hash(i: usize, variant: usize, hashes: &[String]) -> String {
+    let own = &hashes[i];
+    match variant {
+        // the hash of another pool text (the dangerous one: a poisoned entry would later be served for it)
+        0..=2 => {
+            let others: Vec<usize> = (0..POOL.len()).filter(|j| hashes[*j] != *own).collect();
+            hashes[others[(i * 3 + variant * 5) % others.len()]].clone()
+        }
+        3 => {
+            let mut h = own.clone();
+            let last = h.pop().unwrap();
+            h.push(if last == '0' { '1' } else { '0' });
+            h
+        }
+        4 => own[..63].to_string(),
+        5 => String::new(),
+        _ => sha_hex(&format!("{} ", POOL[i])),
+    }
+}
+
+fn malformed(variant: usize, hash: &str) -> GValue {
+    let j = match variant {
+        0 => J::Null,
+        1 => json!(hash),
+        2 => json!(1),
+        // (a list `[1, hash]` is decoded like the object by serde and is therefore not malformed)
+        3 => json!([]),
+        4 => json!({}),
+        5 => json!({"version": 1}),
+        6 => json!({"version": 1, "sha256Hash": 5}),
+        7 => json!({"version": 1, "sha256Hash": null}),
+        _ => json!({"version": 1, "sha256Hash": [hash]}),
+    };
+    GValue::from_json(j).unwrap()
+}
+
+fn unknown_hash(variant: usize, hashes: &[String]) -> String {
+    match variant {
+        0 => sha_hex("never sent"),
+        1 => String::new(),
+        2 => hashes[0][..63].to_string(),
+        3 => format!("{}0", hashes[1]),
+        _ => "0".repeat(64),
+    }
+}
+
+fn pq(version: i32, hash: &str) -> GValue {
+    GValue::from_json(json!({"version": version, "sha256Hash": hash})).unwrap()
+}
+
+fn gen_steps(s: &mut dyn Src) -> Vec<(Step, i32, bool)> {
+    let n = 1 + s.choose(30);
+    (0..n)
+        .map(|_| {
+            let i = s.choose(POOL.len());
+            let st = match s.weighted(&[5, 6, 3, 2, 2, 1, 1]) {
+                0 => Step::Register(i),
+                1 => Step::Lookup(i),
+                2 => Step::WrongHash(i, s.choose(N_WRONG)),
+                3 => Step::WrongVersion(i, VERSIONS[s.choose(VERSIONS.len())], s.bool()),
+                4 => Step::Malformed(i, s.choose(N_MALFORMED), s.bool()),
+                5 => Step::Plain(i),
+                _ => Step::LookupUnknown(s.choose(N_UNKNOWN)),
+            };
+            let x = 7 + s.choose(3) as i32;
+            let op_b = s.bool();
+            (st, x, op_b)
+        })
+        .collect()
+}
+
+fn step_name(st: &Step, x: i32, op_b: bool) -> String {
+    let par = |i: usize| match i {
+        3 => format!("(x={})", x),
+        5 => format!("(op={})", if op_b { "B5" } else { "A5" }),
+        _ => String::new(),
+    };
+    match st {
+        Step::Register(i) => format!("register#{}{}", i, par(*i)),
+        Step::Lookup(i) => format!("lookup#{}{}", i, par(*i)),
+        Step::LookupUnknown(v) => format!("lookup-unknown-hash[{}]", v),
+        Step::WrongHash(i, v) => format!("query#{}+wrong-hash[{}]{}", i, v, par(*i)),
+        Step::WrongVersion(i, ver, q) => format!("version={}#{}{}{}", ver, i, if *q { "+query" } else { "" }, par(*i)),
+        Step::Malformed(i, v, q) => format!("malformed[{}]#{}{}{}", v, i, if *q { "+query" } else { "" }, par(*i)),
+        Step::Plain(i) => format!("plain#{}{}", i, par(*i)),
+    }
+}
+
+struct Seen {
+    resp: Response,
+    log: Vec<i32>,
+}
+impl Seen {
+    fn msgs(&self) -> Vec<&str> {
+        self.resp.errors.iter().map(|e| e.message.as_str()).collect()
+    }
+    fn render(&self) -> String {
+        format!("data={} errors={:?} resolver-log={:?}", self.resp.data, self.msgs(), self.log)
+    }
+    /// exactly the execution of pool text i
+    fn is_exec(&self, i: usize, x: i32, op_b: bool) -> bool {
+        match expect(i, x, op_b) {
+            Expect::Data(d, mut calls) => {
+                let mut log = self.log.clone();
+                log.sort();
+                calls.sort();
+                self.resp.errors.is_empty() && self.resp.data.clone().into_json().ok() == Some(d) && log == calls
+            }
+            Expect::Invalid(marker) => self.log.is_empty() && self.msgs().iter().any(|m| m.contains(marker)),
+            Expect::Unparsable => false,
+        }
+    }
+    fn is_not_found(&self) -> bool {
+        self.log.is_empty() && self.msgs() == vec!["PersistedQueryNotFound"]
+    }
+    /// the request failed and no document (not even the non-validating pool text) was executed
+    fn is_rejected(&self) -> bool {
+        self.log.is_empty() && !self.resp.errors.is_empty() && self.resp.data == GValue::Null && !self.msgs().iter().any(|m| m.contains("missing"))
+    }
+}
+
+fn run_history<S: CacheStorage>(label: &str, storage: S, steps: &[(Step, i32, bool)], hashes: &[String]) -> Case {
+    let schema = Schema::build(Query, EmptyMutation, EmptySubscription).extension(ApolloPersistedQueries::new(storage)).finish();
+    // reference model: pool texts whose document a hash-only request may (but, eviction being allowed, need not) get
+    let mut may: BTreeSet<usize> = BTreeSet::new();
+    let text = format!("{}: {}", label, steps.iter().map(|(st, x, b)| step_name(st, *x, *b)).collect::<Vec<_>>().join("; "));
+    let (mut hits, mut evicted, mut rejected, mut poison_probe, mut unparsable, mut invalid_replayed, mut twin) = (0, 0, 0, 0, 0, 0, 0);
+    let mut wrong_supplied: BTreeSet<String> = BTreeSet::new();
+    for (k, (st, x, op_b)) in steps.iter().enumerate() {
+        let (x, op_b) = (*x, *op_b);
+        let log: ExecLog = Arc::new(Mutex::new(vec![]));
+        let (query, ext, i): (&str, Option<GValue>, Option<usize>) = match st {
+            Step::Register(i) | Step::WrongHash(i, _) | Step::Plain(i) => (
+                POOL[*i],
+                match st {
+                    Step::Register(_) => Some(pq(1, &hashes[*i])),
+                    Step::WrongHash(_, v) => Some(pq(1, &wrong_hash(*i, *v, hashes))),
+                    _ => None,
+                },
+                Some(*i),
+            ),
+            Step::Lookup(i) => ("", Some(pq(1, &hashes[*i])), Some(*i)),
+            Step::LookupUnknown(v) => ("", Some(pq(1, &unknown_hash(*v, hashes))), None),
+            Step::WrongVersion(i, ver, q) => (if *q { POOL[*i] } else { "" }, Some(pq(*ver, &hashes[*i])), Some(*i)),
+            Step::Malformed(i, v, q) => (if *q { POOL[*i] } else { "" }, Some(malformed(*v, &hashes[*i])), Some(*i)),
+        };
+        let mut req = Request::new(query).variables(Variables::from_json(json!({"x": x}))).data(log.clone());
+        if i == Some(5) {
+            req = req.operation_name(if op_b { "B5" } else { "A5" });
+        }
+        if let Some(e) = ext {
+            req.extensions.insert("persistedQuery".to_string(), e);
+        }
+        let resp = vcore::det::block_on(schema.execute(req));
+        let seen = Seen { resp, log: log.lock().unwrap().clone() };
+        let bad = |want: &str| {
+            Case::fail(text.clone(), format!("step {} ({}): expected {}; got {}", k, step_name(st, x, op_b), want, seen.render()))
+        };
+        match st {
+            Step::Register(i) | Step::Plain(i) => {
+                if matches!(expect(*i, x, op_b), Expect::Unparsable) {
+                    if !seen.is_rejected() {
+                        return bad("a parse error and no execution");
+                    }
+                    unparsable += matches!(st, Step::Register(_)) as u32;
+                } else {
+                    if !seen.is_exec(*i, x, op_b) {
+                        return bad(&format!("the execution of pool text #{}", i));
+                    }
+                    // don't-care: a plain request may or may not register its text
+                    may.insert(*i);
+                }
+            }
+            Step::Lookup(i) => {
+                if may.contains(i) && seen.is_exec(*i, x, op_b) {
+                    hits += 1;
+                    invalid_replayed += (*i == 7) as u32;
+                    poison_probe += wrong_supplied.contains(&hashes[*i]) as u32;
+                } else if seen.is_not_found() {
+                    evicted += may.contains(i) as u32;
+                    poison_probe += wrong_supplied.contains(&hashes[*i]) as u32;
+                    twin += ((*i == 0 && may.contains(&6)) || (*i == 6 && may.contains(&0))) as u32;
+                } else if may.contains(i) {
+                    return bad(&format!("the execution of pool text #{} or PersistedQueryNotFound", i));
+                } else {
+                    return bad("PersistedQueryNotFound (no text with this hash was registered)");
+                }
+            }
+            Step::LookupUnknown(_) => {
+                if !seen.is_not_found() {
+                    return bad("PersistedQueryNotFound");
+                }
+            }
+            Step::WrongHash(i, v) => {
+                if !seen.is_rejected() {
+                    return bad("an error and no execution (query does not match the supplied hash)");
+                }
+                wrong_supplied.insert(wrong_hash(*i, *v, hashes));
+                rejected += 1;
+            }
+            Step::WrongVersion(..) => {
+                if !seen.is_rejected() {
+                    return bad("an error and no execution (unsupported version)");
+                }
+                rejected += 1;
+            }
+            Step::Malformed(..) => {
+                if !seen.is_rejected() {
+                    return bad("an error and no execution (no usable persistedQuery payload)");
+                }
+                rejected += 1;
+            }
+        }
+    }
+    Case::pass(text)
+        .nontrivial(hits > 0 && rejected > 0)
+        .class_if(hits > 0, "lookup-hit")
+        .class_if(evicted > 0, "lookup-evicted")
+        .class_if(rejected > 0, "rejected-request")
+        .class_if(poison_probe > 0, "lookup-of-hash-misused-earlier")
+        .class_if(unparsable > 0, "unparsable-text-right-hash")
+        .class_if(invalid_replayed > 0, "non-validating-document-replayed")
+        .class_if(twin > 0, "whitespace-twin-not-found")
+}
+
+pub fn run(ctx: &mut Ctx) {
+    ctx.rule = "random histories (1..=30 steps) over 11 fixed query texts (constants, aliases, a variable, a fragment, two operations, a \
+                whitespace twin, a non-validating text, two unparsable texts, a non-ASCII text) of register / hash-only lookup / lookup of \
+                unknown hash / query+wrong hash / wrong version / malformed payload / plain request, LruCacheStorage cap 1..=4 or a harness \
+                exact-LRU CacheStorage cap 1..=3; non-trivial = at least one hash-only hit and one rejected request in the history; distinct \
+                by rendered history"
+        .into();
+    ctx.assume("hashes are lowercase hex strings; an upper-case spelling of the right hash is outside the domain (either answer acceptable)");
+    ctx.assume("an unsupported version or a payload without usable hash must fail the request (APQ protocol), not merely leave the cache unchanged");
+    ctx.assume("payloads with a usable hash but a missing / string / float version are outside the domain (lenient decoding would be acceptable)");
+    ctx.assume("whether a plain request (no persistedQuery extension) also registers its text is left open: it is added to the may-set");
+    ctx.assume("eviction may happen at any time: a hash-only request for a registered text may always answer PersistedQueryNotFound");
+    ctx.assume("LruCacheStorage::new(cap) rounds cap up to 64 slots (scc::HashCache), so eviction is exercised through a harness CacheStorage (exact LRU)");
+    let hashes: Vec<String> = POOL.iter().map(|t| sha_hex(t)).collect();
+    // SHA-256 self-test of the reference (FIPS 180-2 vector and the value pinned by the crate's own test text)
+    assert_eq!(sha_hex("abc"), "ba7816bf8f01cfea414140de5dae2223b00361a396177a9cb410ff61f20015ad");
+    ctx.note("pool", json!(POOL.iter().zip(&hashes).map(|(t, h)| json!({"text": t, "sha256": h})).collect::<Vec<_>>()));
+
+    // explicit witnesses: the protocol round trip, hash misuse followed by the lookup it would poison, wrong version / malformed
+    // payload carrying the query followed by a lookup, an unparsable text under its right hash
+    let s = |st: Step| (st, 7, false);
+    let witnesses: Vec<Vec<(Step, i32, bool)>> = vec![
+        vec![s(Step::Lookup(0)), s(Step::Register(0)), s(Step::Lookup(0)), s(Step::Lookup(6)), s(Step::Lookup(1))],
+        vec![s(Step::Register(1)), s(Step::WrongHash(0, 0)), s(Step::WrongHash(0, 1)), s(Step::WrongHash(0, 2)), s(Step::Lookup(1)), s(Step::Lookup(0)), s(Step::Lookup(4)), s(Step::Lookup(2))],
+        vec![s(Step::WrongVersion(2, 2, true)), s(Step::Lookup(2)), s(Step::Malformed(2, 5, true)), s(Step::Lookup(2)), s(Step::Register(2)), s(Step::WrongVersion(2, 0, false)), s(Step::Lookup(2))],
+        vec![s(Step::Register(8)), s(Step::Lookup(8)), s(Step::Register(7)), s(Step::Lookup(7)), s(Step::Register(5)), (Step::Lookup(5), 7, true)],
+        vec![s(Step::Register(3)), (Step::Lookup(3), 9, false), s(Step::Register(10)), s(Step::Lookup(10)), s(Step::LookupUnknown(1))],
+    ];
+    for (n, w) in witnesses.iter().enumerate() {
+        let c = run_history("witness lru cap=4", LruCacheStorage::new(4), w, &hashes);
+        if ctx.check_case("witness", c, json!({"witness": n})) {
+            return;
+        }
+        let c = run_history("witness exact-lru cap=1", StrictLru { cap: 1, items: Default::default() }, w, &hashes);
+        if ctx.check_case("witness", c, json!({"witness": n})) {
+            return;
+        }
+    }
+
+    let n = ctx.tier.pick(40_000, 1_000_000);
+    ctx.floor("lookup-hit", 6000);
+    ctx.floor("lookup-evicted", 2000);
+    ctx.floor("rejected-request", 20000);
+    ctx.floor("lookup-of-hash-misused-earlier", 2000);
+    ctx.floor("unparsable-text-right-hash", 5000);
+    let h1 = hashes.clone();
+    ctx.stream("lru-storage", n, 200, move |s| {
+        let cap = 1 + s.choose(4);
+        let steps = gen_steps(s);
+        run_history(&format!("LruCacheStorage cap={}", cap), LruCacheStorage::new(cap), &steps, &h1)
+    });
+    let h2 = hashes.clone();
+    ctx.stream("exact-lru-storage", n, 200, move |s| {
+        let cap = 1 + s.choose(3);
+        let steps = gen_steps(s);
+        run_history(&format!("exact-LRU cap={}", cap), StrictLru { cap, items: Default::default() }, &steps, &h2)
+    });
 }
